@@ -5,6 +5,8 @@ work (a tree), "accepted", "best tip", "ancestor". It is evaluated on what the i
 reported (verdicts, tips, subscriber streams, dumps). Each hit is (signature, text) where the
 signature starts with the property id it belongs to, e.g. `C09:height`.
 """
+import re
+
 import brv
 
 ALL256 = 2**256 - 1
@@ -213,6 +215,24 @@ def monitor(script):
                 m.hit("C01:tip-at", f"Hash(tip height {d.h}) = {d.at[d.h]} but LastHash = {d.tip}")
             if chain_valid and (len(chain) - 1 != d.h or (tipid is not None and chain[-1] != tipid)):
                 m.hit("C07:chain-mismatch", f"chain reconstructed from the stream ends at {chain[-1]} (height {len(chain)-1}), the repository reports tip {d.tip} (height {d.h})")
+        # ---- C01/C17: GetHeaders(start, max) serves the best chain and nothing above its tip
+        for part in (d.rg.split(";") if d.rg else []):
+            mm = re.match(r"\[?(-?\d+)\+(\d+):\[([^\]]*)\]", part.strip())
+            if not mm:
+                continue
+            a, ids = int(mm.group(1)), [x.strip() for x in mm.group(3).split(",") if x.strip()]
+            for i, x in enumerate(ids):
+                hgt = a + i
+                if hgt > d.h:
+                    what = "marked invalid or built on a marked header" if (x.lstrip("-").isdigit() and any(
+                        is_anc(iv, int(x)) for iv in invalid)) else "not on the best chain"
+                    m.hit("C17:getheaders-beyond-tip" if "marked" in what else "C01:getheaders-beyond-tip",
+                          f"GetHeaders({a}, {mm.group(2)}) returned header {x} at height {hgt} above the tip (height {d.h}): {what}")
+                    break
+                want = d.at.get(hgt)
+                if want is not None and want.lstrip("-").isdigit() and x != want:
+                    m.hit("C01:getheaders-mismatch", f"GetHeaders({a}, {mm.group(2)}) has {x} at height {hgt}, Hash({hgt}) = {want}")
+                    break
         # ---- C01: linked ancestry, maximal work
         ids_at = []
         ok_at = not sampled
